@@ -69,6 +69,71 @@ fn flags_parse_any_section_len3() {
     kani::cover!(g == MessageFlags::new() && b[0] == 0x02);
 }
 
+/// Message::encode framing, no Have / no changes: [version byte, 1, head(32), n_need=0, n_have=0,
+/// n_changes=0] followed by the flags section iff flags are present. Any version, any 256-bit head,
+/// any flag subset or none. Compared by index (no parser in the loop).
+#[kani::proof]
+#[kani::unwind(34)]
+fn message_encode_framing_1head() {
+    let hb: [u8; 32] = kani::any();
+    let v2: bool = kani::any();
+    let has_flags: bool = kani::any();
+    let bits: u8 = kani::any();
+    kani::assume(bits < 0x80);
+    let mut f = MessageFlags::new();
+    f.set(bits);
+    let m = Message {
+        heads: vec![ChangeHash(hb)],
+        need: Vec::new(),
+        have: Vec::new(),
+        changes: ChunkList::empty(),
+        flags: if has_flags { Some(f) } else { None },
+        version: if v2 { MessageVersion::V2 } else { MessageVersion::V1 },
+    };
+    let out = m.encode();
+    assert!(out.len() == if has_flags { 40 } else { 37 });
+    assert!(out[0] == if v2 { MESSAGE_TYPE_SYNC_V2 } else { MESSAGE_TYPE_SYNC });
+    assert!(out[1] == 1);
+    let k: usize = kani::any();
+    kani::assume(k < 32);
+    assert!(out[2 + k] == hb[k]);
+    assert!(out[34] == 0 && out[35] == 0 && out[36] == 0);
+    if has_flags {
+        assert!(out[37] == 2 && out[38] == 0x02 && out[39] == (0x80 | bits));
+    }
+    kani::cover!(has_flags && v2);
+    kani::cover!(!has_flags && !v2);
+    std::mem::forget(out);
+}
+
+/// Message::encode framing with one needed hash and one 2-byte change chunk (encode_many over the
+/// chunk list): [type, 0, 1, need(32), 0, 1, 2, c0, c1].
+#[kani::proof]
+#[kani::unwind(34)]
+fn message_encode_framing_need_and_chunk() {
+    let hb: [u8; 32] = kani::any();
+    let c: [u8; 2] = kani::any();
+    let v2: bool = kani::any();
+    let m = Message {
+        heads: Vec::new(),
+        need: vec![ChangeHash(hb)],
+        have: Vec::new(),
+        changes: ChunkList::from(vec![c[0], c[1]]),
+        flags: None,
+        version: if v2 { MessageVersion::V2 } else { MessageVersion::V1 },
+    };
+    let out = m.encode();
+    assert!(out.len() == 40);
+    assert!(out[0] == if v2 { MESSAGE_TYPE_SYNC_V2 } else { MESSAGE_TYPE_SYNC });
+    assert!(out[1] == 0 && out[2] == 1);
+    let k: usize = kani::any();
+    kani::assume(k < 32);
+    assert!(out[3 + k] == hb[k]);
+    assert!(out[35] == 0 && out[36] == 1 && out[37] == 2 && out[38] == c[0] && out[39] == c[1]);
+    kani::cover!(v2);
+    std::mem::forget(out);
+}
+
 // Message::decode totality (first byte fixed to a message type, 0..7 further symbolic bytes) was
 // written and dropped: every rung, including the 1-byte input that fails at the first length prefix,
 // exceeded 900 s (the cost is constant: the ReadMessageError / Message types, not the input).
